@@ -45,9 +45,13 @@ def main():
         if ck.tier == "quick":
             nreg, nupd, nround, nsing, nlp, nmax, nops, mmax = 160, 60, 80, 80, 150, 16, 8, 8
         else:
-            nreg, nupd, nround, nsing, nlp, nmax, nops, mmax = 500, 300, 300, 300, 600, 40, 16, 14
+            nreg, nupd, nround, nsing, nlp, nmax, nops, mmax = 500, 200, 300, 300, 600, 40, 12, 12
         for k in range(nreg):
-            nm = nmax if ck.rng.random() < 0.4 else max(3, nmax // 2)
+            u = ck.rng.random()
+            if ck.tier == "quick":
+                nm = nmax if u < 0.4 else max(3, nmax // 2)
+            else:
+                nm = nmax if u < 0.1 else (24 if u < 0.3 else 12)
             cases.append(lu.plan_case(ck.rng, "R", nm, nops, FAMILIES, allow_updates=False, stats=ck.hist))
         for k in range(nupd):
             c = lu.plan_case(ck.rng, "R", max(3, nmax // 2), nops, FAMILIES, allow_updates=True, stats=ck.hist)
@@ -61,13 +65,14 @@ def main():
         for k in range(nlp):
             cases.append(lu.plan_lp(ck.rng, mmax, mmax + 3))
 
+    lu.HARNESS_TIMEOUT = 90 if ck.tier == "quick" else 900
     blocks, crashes = lu.run_all(exe, cases, "C11")
     for (last, nobs, rc, err) in crashes:
         c = cases[last]
         sig = "crash:%s" % c["kind"]
         if c.get("probe"):
             sig = c["probe"] + ":" + sig
-        ck.violation(sig, "the implementation crashed (rc=%d) in case %d (%s) after %d observations" % (rc, last, c["family"], nobs),
+        ck.violation(sig, "the implementation crashed or did not terminate (rc=%d; 124 = timeout) in case %d (%s) after %d observations" % (rc, last, c["family"], nobs),
                      {"kind": "crash", "case": c, "stderr": err})
     Q = lu.Queries()
     pending = []
